@@ -6,6 +6,10 @@ Engine A.  Per archive (written by mc.models.arwriter, never by the repo) and pe
     freshly opened archive with seek(); every operation of the alphabet is applied to every member in
     every state, with the shared file object pre-positioned adversarially (0 / end of archive);
   * tree mode: every operation history up to depth d replayed from a fresh archive (no state install).
+  * access routes: for a sub-family of archives the same exploration (fixpoint + depth 2) on member objects obtained the
+    other public ways (ACCESS_SHARED / ACCESS_FNAME: other constructor argument forms, iteration, members property,
+    getmember / [] / extractfile, ArMember.from_file), with keyword-argument forms of the operations and close() in the
+    alphabet; every archive's listing is also read through iter(), .members and extractfile().
 Oracle: an io.BytesIO holding exactly the member's bytes, same call, same arguments.
 """
 import io
@@ -29,12 +33,33 @@ def bounds(tier):
                        "1000000001 bytes long (10-digit size field), histories to depth 2-3", "name_styles": ["gnu", "bsd"],
             "open_modes": ["shared fileobj", "filename", "shared real file object whose path now names another archive (%d archives, tree depth 2)" % 14], "graph": "fixpoint",
             "tree_depth": {"quick": "2 (3 on the 2-member core)", "thorough": "3 (4 on the 2-member core)"}[tier],
-            "seek_targets": "[0, size+1]"}
+            "seek_targets": "[0, size+1]",
+            "access_routes": {"shared file object": ACCESS_SHARED, "file name": ACCESS_FNAME,
+                              "archives": "the 10 one-member archives, 6 two-member archives, 1 three-member archive (unique member "
+                                          "names), each explored per route: fixpoint over cursor vectors + every history to depth 2",
+                              "alphabet": "read() read(1) read(size+1) readline() readline(2) readlines() tell() seek(0) seek(size) "
+                                          "seek(+-1,1) seek(-1,2) peer + read(size=1) read(size=-1) readline(size=2) readline(size=-1) "
+                                          "seek(offset=,whence=) for whence 0/1/2 + close()",
+                              "listing": "for EVERY archive of the check: iter(ar), ar.members, extractfile(name) / extractfile(member) "
+                                         "(unique names) list the same members (recorded fields compared) as getmembers()"}}
 
 
 def assumptions():
     return ["io.BytesIO is the reference for file-like behaviour", "read(0), readlines(hint), negative targets and the "
-            "return value of seek are outside the statement", "arwriter output cross-checked with /usr/bin/ar when present"]
+            "return value of seek are outside the statement", "arwriter output cross-checked with /usr/bin/ar when present",
+            "access routes: the members of an archive are the same file-like views however the archive was opened (positional "
+            "and keyword constructor arguments, mode='r' given, encoding=/errors= for the - here ASCII - member names, a "
+            "BufferedReader as file object) and however the member objects were obtained (iteration, the members property, "
+            "getmember / [] / extractfile by name, extractfile by member, ArMember.from_file on a file object positioned at the "
+            "member's header, with and without a file name); operations may be called with keyword arguments (size=, offset=, "
+            "whence=)",
+            "close(): 'sharing one file object, or re-opening by file name' - a member that was closed is used again: with a "
+            "file name it re-opens the file and continues at its cursor, with a shared file object close() leaves the caller's "
+            "file object alone; in both cases the cursor is unchanged (this is what the unchanged library does)",
+            "left out: extractfile(name) for a name that occurs twice (documented in the source to give the first such "
+            "member, unlike getmember), next() and iteration over a member (documented one-line generator; not among the "
+            "operations the statement names), seekable(), copies of member objects, non-ASCII member names with other "
+            "encodings"]
 
 
 def contents(seed):
@@ -81,6 +106,15 @@ def units(tier, seed):
         members = [(names[i], arch[i]) + META[(k + i) % 3] for i in range(len(arch))]
         out.append({"members": members, "style": ("gnu", "bsd")[k % 2], "mode": "named", "tree": 2})
         k += 1
+    # the other ways of opening the archive / getting hold of the members: singles, pairs over the core, a few triples
+    routed = [(c,) for c in cs] + [(cs[1], cs[6]), (cs[6], cs[4]), (cs[4], cs[0]), (cs[0], cs[1]), (cs[6], cs[6]), (cs[9], cs[3])] + [(cs[7], cs[0], cs[3])]
+    for arch in routed:
+        names = ["m%d" % i for i in range(len(arch))]
+        members = [(names[i], arch[i]) + META[(k + i) % 3] for i in range(len(arch))]
+        for mode, accesses in (("shared", ACCESS_SHARED), ("fname", ACCESS_FNAME)):
+            for access in accesses:
+                out.append({"members": members, "style": ("gnu", "bsd")[k % 2], "mode": mode, "tree": 2, "access": access})
+        k += 1
     out.append({"big": True})
     return out
 
@@ -89,7 +123,20 @@ def unit_cost(u, tier):
     if u.get("big"):
         return 40 ** 3
     n = len(u["members"])
-    return (20 * max(n, 1)) ** u["tree"]
+    if u["mode"] == "named":
+        return 300 * (20 * max(n, 1)) ** u["tree"]          # two scratch files per replayed history
+    return ((22 if u.get("access") else 20) * max(n, 1)) ** u["tree"]
+
+
+def route_ops_for(size):
+    """the alphabet of the access-route units: the ordinary one, keyword-argument forms, and close()"""
+    o = [("read",), ("read", 1), ("read", size + 1), ("readline",), ("readline", 2), ("readlines",), ("tell",)]
+    for p in sorted({0, size}):
+        o.append(("seek", p))
+    o += [("seek", 1, 1), ("seek", -1, 1), ("seek", -1, 2), ("peer",)]
+    o += [("read-kw", 1), ("read-kw", -1), ("readline-kw", 2), ("readline-kw", -1), ("seek-kw", 1, 0), ("seek-kw", 1, 1),
+          ("seek-kw", -1, 2), ("seek-kw", 0, 0), ("close",)]
+    return o
 
 
 def ops_for(size):
@@ -105,13 +152,33 @@ def ops_for(size):
 DECOY = arwriter.build([("decoy", b"DECOY\n", 1, 2, 3)], "gnu")
 
 
+# "the other way in": other ways of opening the archive and of getting hold of its members (the cursor exploration then
+# runs on the member objects obtained that way, with keyword-argument forms of the operations and close() in the alphabet)
+ACCESS_SHARED = ["iter", "members-property", "getmember", "getitem", "extractfile-name", "extractfile-member", "from_file",
+                 "ctor-positional", "ctor-mode-keyword", "ctor-encoding", "buffered-reader"]
+ACCESS_FNAME = ["iter", "getmember", "extractfile-name", "from_file", "ctor-positional", "ctor-positional-mode", "ctor-encoding"]
+
+
+def header_offsets(members):
+    out, off = [], len(arwriter.MAGIC)
+    for m in members:
+        out.append(off)
+        off += 60 + len(m[1]) + len(m[1]) % 2
+    return out
+
+
 class Run(object):
-    def __init__(self, members, style, mode, path=None):
+    def __init__(self, members, style, mode, path=None, access=None):
         from debian.arfile import ArFile
         self.members = members
         self.raw = arwriter.build(members, style)
         self.mode = mode
+        self.access = access
         self.tmp = None
+        if access is not None:
+            self._open_via(access, path)
+            self.refs = [io.BytesIO(m[1]) for m in members]
+            return
         if mode == "shared":
             self.under = io.BytesIO(self.raw)
             self.ar = ArFile(fileobj=self.under)
@@ -150,6 +217,61 @@ class Run(object):
         self.ms = self.ar.getmembers()
         self.refs = [io.BytesIO(m[1]) for m in members]
 
+    def _open_via(self, access, path):
+        """open the archive and collect the member objects the `access` way (names are unique in these archives)"""
+        from debian.arfile import ArFile, ArMember
+        names = [m[0] for m in self.members]
+        if self.mode == "shared":
+            self.under = io.BufferedReader(io.BytesIO(self.raw)) if access == "buffered-reader" else io.BytesIO(self.raw)
+            self.path = None
+            if access == "ctor-positional":
+                self.ar = ArFile(None, "r", self.under)
+            elif access == "ctor-mode-keyword":
+                self.ar = ArFile(mode="r", fileobj=self.under)
+            elif access == "ctor-encoding":
+                self.ar = ArFile(fileobj=self.under, encoding="ascii", errors="strict")
+            else:
+                self.ar = ArFile(fileobj=self.under)
+        else:
+            self.under = None
+            self.path = path
+            if access == "ctor-positional":
+                self.ar = ArFile(path)
+            elif access == "ctor-positional-mode":
+                self.ar = ArFile(path, "r")
+            elif access == "ctor-encoding":
+                self.ar = ArFile(filename=path, mode="r", encoding="utf-8", errors="strict")
+            else:
+                self.ar = ArFile(filename=path)
+        if access == "iter":
+            self.ms = [m for m in self.ar]
+        elif access == "members-property":
+            self.ms = list(self.ar.members)
+        elif access == "getmember":
+            self.ms = [self.ar.getmember(n) for n in names]
+        elif access == "getitem":
+            self.ms = [self.ar[n] for n in names]
+        elif access == "extractfile-name":
+            self.ms = [self.ar.extractfile(n) for n in names]
+        elif access == "extractfile-member":
+            self.ms = [self.ar.extractfile(m) for m in self.ar.getmembers()]
+        elif access == "from_file":
+            # ArMember.from_file(fp, fname): "fp is an open File object positioned on a valid file header inside an ar archive"
+            self.ms = []
+            if self.mode == "shared":
+                for off in header_offsets(self.members):
+                    self.under.seek(off)
+                    self.ms.append(ArMember.from_file(self.under, None))
+            else:
+                with open(path, "rb") as fp:
+                    for off in header_offsets(self.members):
+                        fp.seek(off)
+                        self.ms.append(ArMember.from_file(fp, path))
+        else:
+            self.ms = self.ar.getmembers()
+        if len(self.ms) != len(self.members) or any(m is None for m in self.ms):
+            raise LookupError("members obtained: %r" % ([getattr(m, "name", m) for m in self.ms],))
+
     def close(self):
         for m in self.ms:
             m.close()
@@ -168,16 +290,21 @@ class Run(object):
         if len(self.ms) != len(self.members):
             bad.append(("ar/meta/count", len(self.members), len(self.ms)))
             return bad
-        for i, (m, e) in enumerate(zip(self.ms, self.members)):
-            got = (m.name, m.size, m.mtime, m.owner, m.group)
-            want = (e[0], len(e[1]), e[2], e[3], e[4])
-            if got != want:
-                bad.append(("ar/meta/fields", want, got))
+        arms = self.ar.getmembers()        # (self.ms are the same objects unless they were made by ArMember.from_file)
+        if len(arms) != len(self.members):
+            bad.append(("ar/meta/count", len(self.members), len(arms)))
+            return bad
+        for group in ([self.ms] if self.ms is arms else [arms, self.ms]):
+            for i, (m, e) in enumerate(zip(group, self.members)):
+                got = (m.name, m.size, m.mtime, m.owner, m.group)
+                want = (e[0], len(e[1]), e[2], e[3], e[4])
+                if got != want:
+                    bad.append(("ar/meta/fields", want, got))
         for name in set(exp_names):
             last = max(i for i, n in enumerate(exp_names) if n == name)
-            if self.ar.getmember(name) is not self.ms[last]:
+            if self.ar.getmember(name) is not arms[last]:
                 bad.append(("ar/meta/getmember-last", "member #%d for %r" % (last, name),
-                            "member #%r" % [i for i, m in enumerate(self.ms) if m is self.ar.getmember(name)]))
+                            "member #%r" % [i for i, m in enumerate(arms) if m is self.ar.getmember(name)]))
             if self.ar[name] is not self.ar.getmember(name):
                 bad.append(("ar/meta/getitem", "same as getmember", "different"))
         try:
@@ -185,6 +312,26 @@ class Run(object):
             bad.append(("ar/meta/getmember-absent", "KeyError", "returned"))
         except KeyError:
             pass
+        # the other ways of listing: iteration and the members property list the same members, in order (whether they
+        # are the very same objects is not demanded: the recorded fields are compared)
+        allm = self.ar.getmembers()
+
+        def fields(m):
+            return (m.name, m.size, m.mtime, m.owner, m.group) if m is not None and hasattr(m, "size") else repr(m)
+        want_all = [(e[0], len(e[1]), e[2], e[3], e[4]) for e in self.members]
+        if [fields(m) for m in self.ar] != want_all or [fields(m) for m in iter(self.ar)] != want_all:
+            bad.append(("ar/meta/iter", want_all, [fields(m) for m in self.ar]))
+        if [fields(m) for m in self.ar.members] != want_all:
+            bad.append(("ar/meta/members-property", want_all, [fields(m) for m in self.ar.members]))
+        for i, name in enumerate(exp_names):
+            if exp_names.count(name) == 1:
+                # (for a repeated name extractfile is documented to give the first member, unlike getmember)
+                if fields(self.ar.extractfile(name)) != want_all[i]:
+                    bad.append(("ar/meta/extractfile-name", want_all[i], fields(self.ar.extractfile(name))))
+                if fields(self.ar.extractfile(allm[i])) != want_all[i]:
+                    bad.append(("ar/meta/extractfile-member", want_all[i], fields(self.ar.extractfile(allm[i]))))
+        if self.ar.extractfile("absent-name") is not None:
+            bad.append(("ar/meta/extractfile-absent", None, repr(self.ar.extractfile("absent-name"))))
         return bad
 
     def install(self, state):
@@ -193,7 +340,7 @@ class Run(object):
             self.refs[i].seek(p)
 
     def enabled(self, mi, op):
-        if op[0] != "seek":
+        if op[0] not in ("seek", "seek-kw"):
             return True
         size = len(self.members[mi][1])
         whence = op[2] if len(op) > 2 else 0
@@ -202,6 +349,9 @@ class Run(object):
 
     def step(self, mi, op, upos):
         """apply op to member mi on both sides; -> None or (sig, expected, observed)"""
+        if self.under is not None and getattr(self.under, "closed", False):
+            # the file object belongs to the caller: nothing a member does may close it
+            return ("ar/shared-file-object-closed", "the caller's file object is still open", "closed before %r" % (op,))
         if upos is not None and self.under is not None:
             self.under.seek(upos if upos >= 0 else len(self.raw))
         m, r = self.ms[mi], self.refs[mi]
@@ -231,6 +381,21 @@ class Run(object):
                 m.seek(*op[1:])
                 r.seek(*op[1:])
                 got = want = None
+            elif name == "seek-kw":
+                m.seek(offset=op[1], whence=op[2])
+                r.seek(op[1], op[2])
+                got = want = None
+            elif name == "read-kw":
+                want = r.read(op[1])
+                got = m.read(size=op[1])
+            elif name == "readline-kw":
+                want = r.readline(op[1])
+                got = m.readline(size=op[1])
+            elif name == "close":
+                # a member can be closed and used again: with a file name it re-opens the file where it was, a shared
+                # file object is left alone
+                want = None
+                got = m.close()
             else:
                 want = getattr(r, name)(*op[1:])
                 got = getattr(m, name)(*op[1:])
@@ -401,24 +566,31 @@ def run_unit(u, tier, seed):
     if u.get("big"):
         return run_big(part, 2 if tier == "quick" else 3)
     members, style, mode = u["members"], u["style"], u["mode"]
+    access = u.get("access")
     n = len(members)
     path = None
+
+    def sg(sig):
+        return "via-%s/%s" % (access, sig) if access else sig
     if mode == "fname":
         fd, path = tempfile.mkstemp(prefix="verif-c06-")
         os.write(fd, arwriter.build(members, style))
         os.close(fd)
     base = {"members": members, "style": style, "mode": mode}
+    if access:
+        base["access"] = access
+        part.extra["archives explored via %s/%s" % (mode, access)] += 1
     try:
         try:
-            r = Run(members, style, mode, path)
+            r = Run(members, style, mode, path, access)
         except Exception as e:       # a well-formed archive must be indexed
-            part.violation("ar/open-raises/" + type(e).__name__, dict(base, start=None, history=[]),
+            part.violation(sg("ar/open-raises/" + type(e).__name__), dict(base, start=None, history=[]),
                            "archive is indexed", "%s: %s" % (type(e).__name__, e))
             part.evaluations += 1
             return part
         metabad = r.meta()
         for sig, exp, obs in metabad:
-            part.violation(sig, dict(base, start=None, history=[]), exp, obs)
+            part.violation(sg(sig), dict(base, start=None, history=[]), exp, obs)
         r.close()
         part.evaluations += 1
         if metabad:
@@ -428,7 +600,7 @@ def run_unit(u, tier, seed):
             part.outcomes["empty-archive"] += 1
             return part
         uposs = (0, -1) if mode in ("shared", "named") else (None,)
-        allops = [(mi, op) for mi in range(n) for op in ops_for(len(members[mi][1]))]
+        allops = [(mi, op) for mi in range(n) for op in (route_ops_for if access else ops_for)(len(members[mi][1]))]
         # ---- graph mode: fixpoint over cursor vectors
         init = (0,) * n
         seen = {init}
@@ -438,7 +610,7 @@ def run_unit(u, tier, seed):
             for st in frontier:
                 for mi, op in allops:
                     for upos in uposs:
-                        r = Run(members, style, mode, path)
+                        r = Run(members, style, mode, path, access)
                         r.install(st)
                         if not r.enabled(mi, op):
                             r.close()
@@ -449,7 +621,7 @@ def run_unit(u, tier, seed):
                         s2 = r.state()
                         r.close()
                         if bad:
-                            part.violation(bad[0], dict(base, start=list(st), history=[(mi, op, upos)]), bad[1], bad[2])
+                            part.violation(sg(bad[0]), dict(base, start=list(st), history=[(mi, op, upos)]), bad[1], bad[2])
                             continue
                         part.outcomes[op[0]] += 1
                         if s2 not in seen:
@@ -467,7 +639,7 @@ def run_unit(u, tier, seed):
             # replay hist (known good) and try every extension
             for mi, op in allops:
                 for upos in uposs if len(hist) == depth - 1 else uposs[:1]:
-                    r = Run(members, style, mode, path)
+                    r = Run(members, style, mode, path, access)
                     ok = True
                     for (hmi, hop, hup) in hist:
                         if r.step(hmi, hop, hup):
@@ -481,7 +653,7 @@ def run_unit(u, tier, seed):
                     part.transitions += 1
                     h2 = hist + [(mi, op, upos)]
                     if bad:
-                        part.violation(bad[0], dict(base, start=None, history=h2), bad[1], bad[2])
+                        part.violation(sg(bad[0]), dict(base, start=None, history=h2), bad[1], bad[2])
                         continue
                     if len(h2) < depth:
                         if upos == uposs[0]:
@@ -500,8 +672,25 @@ def replay(case):
     if case.get("big"):
         bad, _ = run_big_history([(mi, tuple(op)) for mi, op in case["history"]])
         return [bad] if bad else []
+    access = case.get("access")
+    path = None
+
+    def sg(sig):
+        return "via-%s/%s" % (access, sig) if access else sig
+    if access and case["mode"] == "fname":
+        fd, path = tempfile.mkstemp(prefix="verif-c06-")
+        os.write(fd, arwriter.build([tuple(m) for m in case["members"]], case["style"]))
+        os.close(fd)
     try:
-        r = Run([tuple(m) for m in case["members"]], case["style"], case["mode"])
+        return [(sg(b[0]),) + tuple(b[1:]) for b in _replay(case, path, access)]
+    finally:
+        if path:
+            os.unlink(path)
+
+
+def _replay(case, path, access):
+    try:
+        r = Run([tuple(m) for m in case["members"]], case["style"], case["mode"], path, access)
     except Exception as e:
         return [("ar/open-raises/" + type(e).__name__, "archive is indexed", "%s: %s" % (type(e).__name__, e))]
     try:
